@@ -367,12 +367,16 @@ static void two_blocks(Run *r, int kind) {
             // configuration: strides rotated over (diff, a, b); a (the source picture) additionally at +4 pixels in configurations 1 and 3
             for (int cfg = 0; cfg < 4; cfg++) {
                 int ds = st[cfg], as = st[(cfg + 1) & 3], bs = st[(cfg + 2) & 3], aoff = (cfg & 1) ? 4 : 0;
-                int full = r->thorough ? (cfg == 0 || w * h <= 1024) : (cfg == 0 && w * h <= 1024);
+                // pair set levels: 2 all pairs, 1 an anchor (min, max, texture) on either side or equal patterns, 0 both anchors or equal.
+                // quick: blocks <= 1024 samples level 2, larger blocks level 1 (configuration 0) / 0; thorough: level 2, larger blocks 2 / 1
+                int small = w * h <= 1024;
+                int level = r->thorough ? ((small || cfg == 0) ? 2 : 1) : (small ? 2 : (cfg == 0 ? 1 : 0));
                 for (int pa = 0; pa < np + (cfg == 0 ? nsw : 0); pa++) {
                     int loaded = 0;
                     for (int pb = 0; pb < (pa < np ? np : 1); pb++) {
                         if (r->stop) return;
-                        if (pa < np && !full && !(is_anchor(pa) || is_anchor(pb) || pa == pb)) continue;
+                        if (pa < np && level == 1 && !(is_anchor(pa) || is_anchor(pb) || pa == pb)) continue;
+                        if (pa < np && level == 0 && !((is_anchor(pa) && is_anchor(pb)) || pa == pb)) continue;
                         if (case_skip_fast(r)) continue;
                         int      pbb = pa < np ? pb : pa;
                         uint8_t *a8 = (uint8_t *)BA + (size_t)(GUARD + aoff) * es, *b8 = (uint8_t *)BB + (size_t)GUARD * es;
